@@ -274,6 +274,15 @@ func init() {
 			for _, p := range block {
 				items = append(items, ordered.TupleSS{Key: p[0], Value: p[1]})
 			}
+			if len(items) > 1 && rng.Chance(15) {
+				// the same block written as a pair list in which one name repeats: the constructor keeps the first
+				// position and the last value, so this is the very same block
+				j := rng.Intn(len(items) - 1)
+				real := items[j].Value
+				items[j].Value = "stale $FOO"
+				items = append(items, ordered.TupleSS{Key: items[j].Key, Value: real})
+				stat("C10", "block-from-repeated-pairs")
+			}
 			p := &pipeline.Pipeline{Env: ordered.MapFromItems(items...), Steps: pipeline.Steps{&pipeline.CommandStep{Command: probe.raw}}}
 			refEnv := env.clone()
 			useLib := it%3 == 1 && !rawClash
